@@ -8,18 +8,20 @@ LEAN = ["Ymq.Props.C20"]
 AUDIT = "Ymq.Audit.C20"
 PROFILES = ["release", "chk"]
 TIMEOUT = 60.0
-MAXBITS = 512
+MAXBITS = 520
 B = 32768
 
 THEOREMS = [
-    "Ymq.C20.isqrt_is_floor_sqrt", "Ymq.C20.factor_base_size_ok", "Ymq.C20.fbsizes_keys_increasing",
-    "Ymq.C20.select_fb_size_ok", "Ymq.C20.qs_fb_size_ok", "Ymq.C20.mpqs_fb_size_ok", "Ymq.C20.clsgrp_fb_size_ok",
-    "Ymq.C20.siqs_fb_size_ok", "Ymq.C20.siqs_fb_size_le_cap_fails", "Ymq.C20.siqs_fb_size_cap_witness",
-    "Ymq.C20.siqs_fb_size_le_cap_partial", "Ymq.C20.siqs_nfactors_ok", "Ymq.C20.siqs_nfactors_fits_fbase",
+    "Ymq.C20.reachable_bits_ok", "Ymq.C20.isqrt_is_floor_sqrt", "Ymq.C20.factor_base_size_ok",
+    "Ymq.C20.fbsizes_keys_increasing", "Ymq.C20.select_fb_size_ok", "Ymq.C20.qs_fb_size_ok",
+    "Ymq.C20.mpqs_fb_size_ok", "Ymq.C20.clsgrp_fb_size_ok", "Ymq.C20.siqs_fb_size_ok",
+    "Ymq.C20.siqs_fb_size_le_cap_fails", "Ymq.C20.siqs_fb_size_cap_witness", "Ymq.C20.siqs_fb_size_le_cap_partial",
+    "Ymq.C20.siqs_nfactors_ok", "Ymq.C20.siqs_nfactors_fits_fbase", "Ymq.C20.siqs_select_a_mask_ok",
+    "Ymq.C20.siqs_select_a_u64_mask_witness", "Ymq.C20.siqs_poly_fits_ok", "Ymq.C20.siqs_poly_overflows_witness",
     "Ymq.C20.siqs_a_value_count_ok", "Ymq.C20.siqs_a_tolerance_divisor_ok", "Ymq.C20.siqs_interval_size_ok",
     "Ymq.C20.siqs_large_prime_factor_ok", "Ymq.C20.siqs_double_large_factor_ok", "Ymq.C20.mpqs_interval_size_ok",
     "Ymq.C20.mpqs_large_prime_factor_ok", "Ymq.C20.mpqs_double_large_factor_ok", "Ymq.C20.qs_large_prime_factor_ok",
-    "Ymq.C20.qs_nblocks_ok", "Ymq.C20.cl_a_params_ok", "Ymq.C20.cl_interval_size_ok",
+    "Ymq.C20.qs_nblocks_ok", "Ymq.C20.cl_a_params_ok", "Ymq.C20.cl_select_a_mask_ok", "Ymq.C20.cl_interval_size_ok",
     "Ymq.C20.cl_large_prime_factor_ok", "Ymq.C20.cl_double_large_factor_ok", "Ymq.C20.siqs_maxlarge_ok",
     "Ymq.C20.siqs_maxdouble_ok", "Ymq.C20.mpqs_maxlarge_ok", "Ymq.C20.mpqs_maxdouble_ok", "Ymq.C20.qs_maxlarge_ok",
     "Ymq.C20.qs_max_cofactor_ok", "Ymq.C20.cl_maxlarge_ok", "Ymq.C20.cl_maxdouble_ok", "Ymq.C20.fbase_request_ok",
@@ -31,7 +33,7 @@ THEOREMS = [
     "Ymq.C20.convolve_dispatch_packing_fails_size_one", "Ymq.C20.convolve_fsize_ok",
 ]
 
-RULE = ("exhaustive: every translated parameter function on every bit length 0..512 (x both values of every flag, x the "
+RULE = ("exhaustive: every translated parameter function on every bit length 0..520 (x both values of every flag, x the "
         "three tables; select_fb_size up to 1024 bits), every row / midpoint / off-table B2 of both stage-2 tables, the NTT "
         "prime table, MultiZmodP::new for every modulus size 1..512 x logsize in {0,1,5,10}; consumer runs (FBase::new, "
         "fbase::cofactor with the derived bounds) at breakpoint sizes; non-trivial = every request; distinct by request line")
@@ -56,7 +58,10 @@ HYPOTHESES = []
 CLAIM = ("Every parameter function of the sieves (QS, MPQS, SIQS, class group), the factor-base tables, both stage-2 tables with "
          "their nearest-row selection, the hard-wired (curves,B1,B2) arms, the NTT prime table with MultiZmodP::new's prime count "
          "and the convolve_modn dispatch are regenerated from the Rust source as checked Lean functions; Lean theorems (decide "
-         "over the complete domain bits 0..512 x flags x variants, lifted by lemmas where a variable is unbounded) state that no "
+         "over bits 0..520 x flags x variants, lifted by lemmas where a variable is unbounded; reachable: factor() refuses n above "
+         "500 bits, so functions of the original n (qs_fb_size, mpqs_fb_size, clsgrp_fb_size, ECM/P-1 arms) see <= 500 bits and "
+         "functions of the multiplied n*k, k < 200 (all of siqs.rs; interval/large-prime/nblocks functions of mpqs.rs, qsieve.rs) see "
+         "<= 508 bits, theorem reachable_bits_ok; MultiZmodP::new for bits <= 512, convolve dispatch for bits <= 500) state that no "
          "formula underflows/overflows/shifts out of range/divides by zero and that every derived value meets the consumer's "
          "requirement (positive, multiple of 32768, fits its type, 6 | d1, d2 power of two, packing fits, ...); the model is "
          "compared with the real code on the whole domain and a Python oracle re-checks the requirements on the real answers.")
@@ -122,7 +127,7 @@ def cases(tier, rng, extended=False):
         pts.update([0, 1, 2 * STAGE2_B2[t][-1] + 2 * 10 ** 12, 2 * 10 ** 15, 160001, 160002])
         for num in sorted(pts):
             yield Case(f"stage2 {t} {num} 2")
-    for b in range(1, top + 1):
+    for b in range(1, 513):            # ZmodN::new refuses more than 512 bits
         for l in ((0, 1, 5, 10) if tier == "quick" and not extended else (0, 1, 2, 5, 8, 10, 12, 14)):
             yield Case(f"param arith_fft::mzp_w {b} {l}", timeout=120)
     # convolve_modn really run at the dispatch breakpoints (small sizes): returns iff the model says so
@@ -134,6 +139,15 @@ def cases(tier, rng, extended=False):
     for b, size in [(64, 16), (100, 120), (200, 8000), (300, 90000), (512, 500000)] + \
                    ([(393, 557056), (512, 7340032)] if tier != "quick" or extended else []):
         yield Case(f"fbase_new {b} {size}", k=False, timeout=300)
+    # SIQS / MPQS: the driver's steps up to the first polynomial with every parameter from the real
+    # functions, then the whole interval of that polynomial through the real sieve (chk = all asserts)
+    bp = [64, 90, 120, 150, 181, 200, 256, 257, 300, 341, 400, 425, 448] if tier == "quick" and not extended else \
+        [40, 64, 65, 89, 90, 119, 120, 149, 150, 169, 170, 180, 181, 199, 200, 225, 250, 255, 256, 257, 275, 300, 325, 340,
+         341, 350, 375, 390, 391, 393, 400, 424, 425, 440, 448]
+    for b in bp:
+        for d in ((1 if b > 256 else 0,) if tier == "quick" and not extended else (0, 1)):
+            yield Case(f"siqs_consumer {b} {d}", k=False, timeout=600)
+            yield Case(f"mpqs_consumer {b} {d}", k=False, timeout=600)
     qs_sizes = [100, 250, 347, 348, 400] if tier == "quick" and not extended else [60, 100, 200, 250, 300, 340, 347, 348, 349, 352, 360, 380, 399, 400]
     for b in qs_sizes:
         for d in (0, 1):
@@ -200,8 +214,8 @@ def row_ok(t, d1, d2):
 
 def oracle(case, ans):
     a = case.args
-    if ans in ("panic", "hang", "abort", "?"):
-        return f"no value returned ({ans})"
+    if ans in ("panic", "hang", "abort", "?") or ans.startswith("panic:"):
+        return f"no value returned ({ans[:200]})"
     if case.op == "stage2_table":
         rows = [tuple(int(x) for x in r.split(":")) for r in ans.split(",")]
         _tables[a[0]] = rows
@@ -242,6 +256,8 @@ def oracle(case, ans):
         if ln % 8 != 0 or ln == 0 or ln > size + 7:
             return "factor base length not a positive multiple of 8 within size+7"
         return None if mx < (1 << 24) else "factor base prime >= 2^24"
+    if case.op in ("siqs_consumer", "mpqs_consumer"):
+        return None if ans.endswith(",ok") else f"consumer run failed: {ans[:200]}"
     if case.op == "qs_consumer":
         ln, mx, ml, _ = ans.split(",")
         return None if int(ml) < (1 << 32) and int(mx) < (1 << 24) else "maxlarge >= 2^32"
@@ -287,6 +303,8 @@ def klass(case, ans):
         return a[0] + "/" + ("panic" if not ans[:1].isdigit() else f"bits{int(a[1]) // 128 * 128}+" if not a[0].endswith("max_large_prime") else "grid")
     if case.op == "stage2":
         return f"stage2/{a[0]}/" + (ans.split(",")[1] if "," in ans else ans)
+    if ans.startswith("panic:"):
+        return case.op + "/" + ans.split("@")[-1]
     return case.op + ("/" + ans if ans in ("panic", "hang", "abort", "?") else "")
 
 
